@@ -520,6 +520,11 @@ def add_variants(g: Grammar, gx):
         s["type"] = [A.IdentifierType(["int"], gx.Coord("f.c", 701, 1))]
         return s
 
+    def with_storage(st):
+        s = int_spec()
+        s["storage"] = [st]
+        return s
+
     def struct_spec():
         s = new_spec()
         s["type"] = [A.Struct("S", None, gx.Coord("f.c", 702, 1))]
@@ -530,7 +535,10 @@ def add_variants(g: Grammar, gx):
                                      ("array-suffix", lambda gx, p: ((A.TypeDecl(None, None, None, None), None), {}))],
         "_parse_function_decl": [("function-suffix", lambda gx, p: ((td("f"),), {}))],
         "_parse_decl_suffixes": [("declarator-suffixes", lambda gx, p: ((td("a"),), {}))],
-        "_parse_decl_body_with_spec": [("decl-tail", lambda gx, p: ((struct_spec() if p.note == "tag-only" else int_spec(), True), {}))],
+        "_parse_decl_body_with_spec": [("decl-tail", lambda gx, p: ((struct_spec() if p.note == "tag-only" else int_spec(), True), {})),
+                                       ("decl-tail", lambda gx, p: ((struct_spec() if p.note == "tag-only" else with_storage("extern"), True), {})),
+                                       ("decl-tail", lambda gx, p: ((struct_spec() if p.note == "tag-only" else with_storage("typedef"), True), {})),
+                                       ("decl-tail", lambda gx, p: ((struct_spec() if p.note == "tag-only" else with_storage("static"), True), {}))],
         "_parse_declarator_kind": [("declarator[id]", lambda gx, p: (("id", True), {})),
                                    ("declarator[typeid]", lambda gx, p: (("typeid", True), {})),
                                    ("declarator[typeid-noparen]", lambda gx, p: (("typeid", False), {}))],
